@@ -1,4 +1,4 @@
-from gearpy.mechanical_objects import SpurGear
+from gearpy.mechanical_objects import SpurGear, WormGear
 from gearpy.powertrain import Powertrain
 from gearpy.units import AngularPosition, Angle
 
@@ -12,7 +12,7 @@ def _compute_static_error(
 
     powertrain_efficiency = 1
     for element in powertrain.elements:
-        if isinstance(element, SpurGear):
+        if isinstance(element, SpurGear | WormGear):
             powertrain_efficiency *= element.master_gear_efficiency
 
     if load_torque is not None:
@@ -39,7 +39,7 @@ def _compute_pwm_min(powertrain: Powertrain) -> float | int:
 
     powertrain_efficiency = 1
     for element in powertrain.elements:
-        if isinstance(element, SpurGear):
+        if isinstance(element, SpurGear | WormGear):
             powertrain_efficiency *= element.master_gear_efficiency
 
     return 1/powertrain_efficiency*(load_torque/maximum_torque)*(
